@@ -1326,6 +1326,197 @@ Section Bridge.
     rewrite Hr. cbn [co_iter map bind]. unfold co_enumerate. cbn [enum_from Src_Tuple_set_loop1 co_call co_iter_vals py_iter bind].
     reflexivity.
   Qed.
+  (* ---------------------------------------------------------------- hashability is preserved by the chains *)
+
+  (* Python can only put hashable elements in a set / use hashable keys; the chains keep them hashable, so the
+     side conditions of the Set / ImmutableSet / Map theorems hold whenever the INPUT is a Python value *)
+  Lemma mapM_hashable (f : pyval -> res pyval) :
+    forall l r, (forall x nf, In x l -> py_hashable' x = true -> f x = Ok nf -> py_hashable' nf = true) ->
+                forallb py_hashable' l = true -> mapM f l = Ok r -> forallb py_hashable' r = true.
+  Proof.
+    induction l as [|x l IH]; intros r Hf Hl Hm; cbn [mapM forallb] in *.
+    - inversion Hm. reflexivity.
+    - apply andb_true_iff in Hl. destruct Hl as [Hx Hl].
+      destruct (f x) as [y|ex] eqn:Ey; cbn [bind] in Hm; [|discriminate Hm].
+      destruct (mapM f l) as [ys|ex] eqn:Eys; cbn [bind] in Hm; [|discriminate Hm].
+      inversion Hm. cbn [forallb]. rewrite (Hf x y (or_introl eq_refl) Hx Ey).
+      apply (IH ys); [intros x0 nf Hin; apply Hf; right; exact Hin | exact Hl | reflexivity].
+  Qed.
+
+  Lemma number_chain_hashable k s c v nf :
+    py_hashable' v = true -> number_chain k s c v = Ok nf -> py_hashable' nf = true.
+  Proof.
+    intros Hv H. destruct k; cbn [number_chain] in H.
+    - destruct (sign_check s v); cbn [bind] in H; [|discriminate H].
+      destruct (number_static c v); cbn [bind] in H; [|discriminate H]. inversion H. subst. exact Hv.
+    - destruct (is_py_int v); [|discriminate H].
+      destruct (number_static c v); cbn [bind] in H; [|discriminate H].
+      destruct (sign_check s v); cbn [bind] in H; [|discriminate H]. inversion H. subst. exact Hv.
+    - assert (Hgen : forall conv, py_hashable' conv = true ->
+                (if is_py_float conv then _ <- number_static c conv ;; _ <- sign_check s conv ;; Ok conv else Raise TypeError) = Ok nf ->
+                py_hashable' nf = true).
+      { intros conv Hc H0. destruct (is_py_float conv); [|discriminate H0].
+        destruct (number_static c conv); cbn [bind] in H0; [|discriminate H0].
+        destruct (sign_check s conv); cbn [bind] in H0; [|discriminate H0]. inversion H0. subst. exact Hc. }
+      destruct v as [| | [z|m ex|m ex] | | | | | | | | |]; cbn [bind] in H; try (apply (Hgen _ Hv H)).
+      destruct (float_exact z); cbn [bind] in H; [|discriminate H]. apply (Hgen (PNum (int_to_flt z)) eq_refl H).
+  Qed.
+
+  Lemma vset_hashable : forall f v nf,
+      py_hashable' v = true -> vset re_match e f v = Ok nf -> py_hashable' nf = true.
+  Proof.
+    apply (field_ind' (fun f => forall v nf, py_hashable' v = true -> vset re_match e f v = Ok nf -> py_hashable' nf = true)).
+    - intros k s c v nf Hv H. cbn [vset] in H. eapply number_chain_hashable; eassumption.
+    - intros c v nf Hv H. cbn [vset] in H. unfold string_chain in H. destruct v; try discriminate H.
+      repeat match type of H with
+             | context [match ?x with _ => _ end] => destruct x; cbn [bind] in H; try discriminate H
+             end.
+      all: inversion H; reflexivity.
+    - intros v nf Hv H. cbn [vset] in H. unfold boolean_chain in H. destruct v; try discriminate H.
+      + inversion H. reflexivity.
+      + destruct (pystr_eqb s str_True); [inversion H; reflexivity|].
+        destruct (pystr_eqb s str_False); [inversion H; reflexivity | discriminate H].
+    - intros v nf Hv H. cbn [vset] in H. destruct v; try discriminate H. inversion H. reflexivity.
+    - intros v nf Hv H. cbn [vset] in H. inversion H. subst. exact Hv.
+    - intros vs v nf Hv H. cbn [vset] in H. destruct (py_in v vs); [inversion H; subst; exact Hv | discriminate H].
+    - intros c ms v nf Hv H. cbn [vset] in H. destruct (negb (py_hashable v)); [discriminate H|].
+      destruct v; try discriminate H.
+      + destruct (alist_get ms s); [inversion H; reflexivity | discriminate H].
+      + match type of H with (if ?b then _ else _) = _ => destruct b end; [inversion H; reflexivity | discriminate H].
+    - intros k sz u v nf Hv H. cbn [vset] in H. destruct k; destruct v; try discriminate Hv; discriminate H.
+    - intros k f sz u _ v nf Hv H. cbn [vset] in H. destruct k; destruct v; try discriminate Hv; discriminate H.
+    - intros k fs sz u a _ v nf Hv H. cbn [vset] in H. destruct k; destruct v; try discriminate Hv; discriminate H.
+    - intros i sz v nf Hv H. cbn [vset] in H. destruct v; try discriminate H.
+      destruct (size_check sz (lenZ l)); cbn [bind] in H; [|discriminate H].
+      inversion H. cbn [py_hashable'] in *. rewrite Hv. apply orb_true_r.
+    - intros i f sz _ v nf Hv H. cbn [vset] in H. destruct v; try discriminate H.
+      destruct (size_check sz (lenZ l)); cbn [bind] in H; [|discriminate H].
+      destruct (mapM (fun x => vset re_match e f x) l); cbn [bind] in H; [|discriminate H].
+      inversion H. cbn [py_hashable'] in *. rewrite Hv. apply orb_true_r.
+    - (* Tuple *)
+      intros fs u HF v nf Hv H. cbn [vset] in H.
+      destruct v; try discriminate H. cbn [py_hashable'] in Hv.
+      destruct (uniq_check u l); cbn [bind] in H; [|discriminate H].
+      assert (Hpos : forall fs0, Forall (fun g => forall v nf, py_hashable' v = true -> vset re_match e g v = Ok nf -> py_hashable' nf = true) fs0 ->
+                forall vs r, forallb py_hashable' vs = true ->
+                (fix pos (fs : list field) (vs : list pyval) {struct fs} : res (list pyval) :=
+                   match fs, vs with
+                   | [], _ => Ok []
+                   | _ :: _, [] => Raise IndexError
+                   | g :: fs', x :: vs' => y <- vset re_match e g x ;; ys <- pos fs' vs' ;; Ok (y :: ys)
+                   end) fs0 vs = Ok r -> forallb py_hashable' r = true).
+      { induction fs0 as [|g fs0 IHf]; intros HF0 vs r Hvs Hp.
+        - inversion Hp. reflexivity.
+        - destruct vs as [|x vs]; [discriminate Hp|]. inversion HF0 as [|g' fs' Hg HF']. subst.
+          cbn [forallb] in Hvs. apply andb_true_iff in Hvs. destruct Hvs as [Hx Hvs].
+          destruct (vset re_match e g x) as [y|ex] eqn:Ey; cbn [bind] in Hp; [|discriminate Hp].
+          match type of Hp with (ys <- ?P ;; _) = _ => destruct P as [ys|ex] eqn:Eys end; cbn [bind] in Hp; [|discriminate Hp].
+          inversion Hp. cbn [forallb]. rewrite (Hg x y Hx Ey). apply (IHf HF' vs ys Hvs Eys). }
+      destruct fs as [|g [|g2 rest]]; [discriminate H | |].
+      + destruct (mapM (fun x => vset re_match e g x) l) as [r|ex] eqn:Er; cbn [bind] in H; [|discriminate H].
+        inversion H. cbn [py_hashable'].
+        inversion HF as [|g' fs' Hg HF']. subst.
+        apply (mapM_hashable (fun x => vset re_match e g x) l r); [intros x nf0 _; apply Hg | exact Hv | exact Er].
+      + destruct (negb (lenZ (g :: g2 :: rest) =? lenZ l)); [discriminate H|].
+        match type of H with (r <- ?P ;; _) = _ => destruct P as [r|ex] eqn:Er end; cbn [bind] in H; [|discriminate H].
+        inversion H. cbn [py_hashable']. apply (Hpos (g :: g2 :: rest) HF l r Hv Er).
+    - intros sz v nf Hv H. cbn [vset] in H. destruct v; try discriminate Hv; discriminate H.
+    - intros kf vf sz _ _ v nf Hv H. cbn [vset] in H. destruct v; try discriminate Hv; discriminate H.
+    - intros fs _ v nf Hv H. cbn [vset] in H.
+      destruct (allof_combine (map (fun g => vset re_match e g v) fs)); cbn [bind] in H; [|discriminate H].
+      inversion H. subst. exact Hv.
+    - (* AnyOf *)
+      intros fs HF v nf Hv H. cbn [vset] in H.
+      induction fs as [|g fs IHf]; cbn [map anyof_combine] in H; [discriminate H|].
+      inversion HF as [|g' fs' Hg HF']. subst.
+      destruct (vset re_match e g v) as [y|ex] eqn:Ey.
+      + inversion H. subst. apply (Hg v nf Hv Ey).
+      + destruct (caught ex); [apply (IHf HF' H) | discriminate H].
+    - intros fs _ v nf Hv H. cbn [vset] in H.
+      destruct (oneof_combine (map (fun g => vset re_match e g v) fs)) as [cnt|ex]; cbn [bind] in H; [|discriminate H].
+      destruct (Nat.eqb cnt 1); [inversion H; subst; exact Hv | discriminate H].
+    - intros fs _ v nf Hv H. cbn [vset] in H.
+      destruct (not_combine (map (fun g => vset re_match e g v) fs)); cbn [bind] in H; [|discriminate H].
+      inversion H. subst. exact Hv.
+    - intros c v nf Hv H. cbn [vset] in H.
+      destruct v; try discriminate H. destruct (is_instance_of e cls c); [inversion H; reflexivity | discriminate H].
+  Qed.
+  (* a Python set holds hashable elements, a Python dict hashable keys *)
+  Definition py_container_ok (v : pyval) : bool :=
+    match v with
+    | PSet _ l => forallb py_hashable' l
+    | PDict kv => forallb (fun p => py_hashable' (fst p)) kv
+    | _ => true
+    end.
+
+  Lemma conv_hashable_of_input g : forall l,
+      forallb py_hashable' l = true -> conv_hashable (fun x => vset re_match e g x) l = true.
+  Proof.
+    induction l as [|x l IH]; intros Hl; [reflexivity|]. cbn [forallb conv_hashable] in *.
+    apply andb_true_iff in Hl. destruct Hl as [Hx Hl].
+    destruct (vset re_match e g x) as [y|ex] eqn:Ey; [|reflexivity].
+    rewrite (vset_hashable g x y Hx Ey). exact (IH Hl).
+  Qed.
+
+  Lemma set_elems_hashable_of_input g v : py_container_ok v = true -> set_elems_hashable g v = true.
+  Proof.
+    destruct v; try reflexivity. cbn [py_container_ok set_elems_hashable]. intros Hl.
+    destruct (mapM (fun x => vset re_match e g x) l) as [r|ex] eqn:Er; [|reflexivity].
+    apply (mapM_hashable (fun x => vset re_match e g x) l r); [intros x nf _; apply vset_hashable | exact Hl | exact Er].
+  Qed.
+
+  Lemma dedup_aux_forallb (P : pyval -> bool) : forall l seen,
+      forallb P seen = true -> forallb P l = true -> forallb P (py_dedup_aux seen l) = true.
+  Proof.
+    induction l as [|x l IH]; intros seen Hs Hl; cbn [py_dedup_aux].
+    - rewrite forallb_forall in *. intros y Hy. apply Hs. apply in_rev. exact Hy.
+    - cbn [forallb] in Hl. apply andb_true_iff in Hl. destruct Hl as [Hx Hl].
+      destruct (py_in x seen); apply IH; try assumption. cbn [forallb]. rewrite Hx, Hs. reflexivity.
+  Qed.
+
+  Lemma conv_keys_hashable_of_input kf vf : forall kv,
+      forallb (fun p => py_hashable' (fst p)) kv = true -> conv_keys_hashable (rec_of [kf; vf]) kv = true.
+  Proof.
+    induction kv as [|[k v] kv IH]; intros Hl; [reflexivity|]. cbn [forallb conv_keys_hashable fst] in *.
+    apply andb_true_iff in Hl. destruct Hl as [Hk Hl]. unfold conv_pair. cbn [fst snd].
+    change (rec_of [kf; vf] 0%nat k) with (vset re_match e kf k).
+    destruct (vset re_match e kf k) as [k'|ex] eqn:Ek; cbn [bind]; [|reflexivity].
+    destruct (rec_of [kf; vf] 1%nat v) as [v'|ex]; cbn [bind]; [|reflexivity].
+    rewrite (vset_hashable kf k k' Hk Ek). exact (IH Hl).
+  Qed.
+
+  (* the Set / ImmutableSet / Map theorems for every value that can exist in Python *)
+  Corollary generated_set_items_py : forall g sz u a im name nm iattrs v,
+      validating iattrs = true -> py_container_ok v = true ->
+      set_result (Src_Set_set re_match (rec_of [g]) nm (coll_self name (OFld 0) sz u a im) (OObj KInst iattrs) (OVal v))
+      = vset re_match e (FSet false (Some g) sz) v.
+  Proof. intros. apply generated_set_items; [assumption | apply set_elems_hashable_of_input; assumption]. Qed.
+
+  Corollary generated_immutableset_items_py : forall g sz u a im name nm iattrs v,
+      name_ok name = true -> validating iattrs = true -> py_container_ok v = true ->
+      set_result (Src_ImmutableSet_set re_match (rec_of [g]) nm (coll_self name (OFld 0) sz u a im) (OObj KInst iattrs) (OVal v))
+      = (nf <- vset re_match e (FSet true (Some g) sz) v ;; vset re_match e (FSet true (Some g) sz) nf).
+  Proof.
+    intros g sz u a im name nm iattrs v Hn Hi Hc.
+    apply generated_immutableset_items; try assumption.
+    - destruct v; try reflexivity. apply conv_hashable_of_input. exact Hc.
+    - destruct (vset re_match e (FSet true (Some g) sz) v) as [nf|ex] eqn:E; [|reflexivity].
+      apply set_elems_hashable_of_input.
+      destruct v; try discriminate E. cbn [vset] in E.
+      destruct (size_check sz (lenZ l)); cbn [bind] in E; [|discriminate E].
+      destruct (mapM (fun x => vset re_match e g x) l) as [r|ex] eqn:Er; cbn [bind] in E; [|discriminate E].
+      inversion E. cbn [py_container_ok] in *. unfold py_dedup. apply dedup_aux_forallb; [reflexivity|].
+      apply (mapM_hashable (fun x => vset re_match e g x) l r); [intros x nf0 _; apply vset_hashable | exact Hc | exact Er].
+  Qed.
+
+  Corollary generated_map_kv_py : forall kf vf sz u a im name nm iattrs v,
+      name_ok name = true -> py_container_ok v = true ->
+      set_result (Src_Map_set re_match (rec_of [kf; vf]) nm (coll_self name (OFlds [0; 1]%nat) sz u a im) (OObj KInst iattrs) (OVal v))
+      = vset re_match e (FMapKV kf vf sz) v.
+  Proof.
+    intros kf vf sz u a im name nm iattrs v Hn Hc. apply generated_map_kv; [assumption|].
+    destruct v; try reflexivity. apply conv_keys_hashable_of_input. exact Hc.
+  Qed.
 End Bridge.
 
 (* ------------------------------------------------------------------ side conditions are satisfiable; findings *)
@@ -1339,7 +1530,9 @@ Example side_conditions_satisfiable :
   tuple_declared [FBoolean] = true /\
   set_elems_hashable any_re [] (FNumber KFloat SAny no_numc) (PSet false [PNum (NInt 1); PNum (NInt 2)]) = true /\
   iset_first_ok any_re [] FBoolean (PSet false [PBool true; PStr (s2p "True")]) = true /\
-  map_keys_ok any_re [] (FString no_strc) FBoolean (PDict [(PStr (s2p "k"), PStr (s2p "True"))]) = true.
+  map_keys_ok any_re [] (FString no_strc) FBoolean (PDict [(PStr (s2p "k"), PStr (s2p "True"))]) = true /\
+  py_container_ok (PSet false [PNum (NInt 1); PTuple [PStr (s2p "a")]]) = true /\
+  py_container_ok (PDict [(PStr (s2p "k"), PList [])]) = true.
 Proof. repeat split; vm_compute; reflexivity. Qed.
 
 (* the generated functions evaluate: Array[Float] converts, Map[String, Boolean] converts values *)
@@ -1398,6 +1591,10 @@ Print Assumptions generated_immutableset_items_fix.
 Print Assumptions generated_immutableset_plain.
 Print Assumptions generated_map_kv.
 Print Assumptions generated_map_any.
+Print Assumptions generated_set_items_py.
+Print Assumptions generated_immutableset_items_py.
+Print Assumptions generated_map_kv_py.
+Print Assumptions vset_hashable.
 Print Assumptions generated_allof.
 Print Assumptions generated_anyof.
 Print Assumptions generated_oneof.
